@@ -299,7 +299,39 @@ def run_C01(tier, rng, stats):
             if vlib.outcome_class(x) in ('PANIC', 'ABORT', 'TIMEOUT', 'BUDGET'):
                 res['violations'].insert(0, {'kind': 'panic', 'cases': [list(c)], 'profile': prof, 'observed': x,
                                              'why': '%s build: %s on %r' % (prof, x, dec_expr(c[3]))})
+    stack_probe(res, stats)
     return res
+
+def stack_probe(res, stats):
+    """native stack: deeply nested inputs of <= 256 characters on threads with the main-thread default (8 MiB) and the
+       std::thread::spawn default (2 MiB), in the harness's debug / release builds and in a plain unoptimised debug build"""
+    import subprocess
+    try:
+        vlib.build_stack_probe()
+    except vlib.BuildError as e:
+        res['violations'].append({'kind': 'stack-probe-build', 'cases': [['f64', 'eval', '', enc('(')]], 'observed': str(e)[-300:], 'why': 'the stack probe does not build'})
+        return
+    shapes = [('(' * 256, 'open-brackets'), ('-' * 256, 'prefix-signs'), ('2(' * 128, 'juxtaposed-brackets'), ('(' * 127 + '1' + ')' * 127, 'balanced-brackets'),
+              ('abs(' * 50 + '1' + ')' * 50, 'nested-calls'), ('⌈' * 85, 'open-ceilings'), ('1+(' * 85 + '1', 'operator-brackets')]
+    n = nd = 0
+    worst = {}
+    for prof in ('debug', 'release', 'plaindebug'):
+        exe = os.path.join(vlib.ROOT, 'harness/target', prof, 'stack_probe')
+        for ev in EVS:
+            for e, shape in shapes:
+                if '⌈' in e and not gen.HAS_FLOORBR[ev]:
+                    continue
+                for kib in (8192, 2048):
+                    p = subprocess.run([exe, ev, str(kib), enc(e)], stdout=subprocess.PIPE, stderr=subprocess.PIPE, timeout=120, env=vlib.ENV)
+                    n += 1
+                    if p.returncode != 0:
+                        nd += 1
+                        res['violations'].insert(0, {'kind': 'stack-overflow', 'cases': [[ev, 'eval', gen.default_ph(ev), enc(e)]], 'profile': prof,
+                                                     'observed': 'process killed (exit %s) on a %d KiB thread stack' % (p.returncode, kib),
+                                                     'tags': {'stack_kib': kib, 'profile': prof, 'shape': shape, 'ev': ev},
+                                                     'why': '%s build of %s: %d-character input %r... exhausts a %d KiB stack and aborts the process' % (prof, ev, len(e), e[:6], kib)})
+    stats['evaluations'] = stats.get('evaluations', 0) + n
+    stats.setdefault('hist', {})['native-stack probe'] = {'runs': n, 'aborted': nd}
 
 def s_nested(tier, rng, evs=EVS):
     """every construct nested in each of its operand positions, at several depths up to the 256-character bound:
@@ -379,6 +411,10 @@ def run_C03(tier, rng, stats):
     cases, outs, model = run_streams(cs, stats, profiles=('debug',))
     res = std_judge('C03', cases, outs, model)
     kernel_crosscheck(res, stats, cases, model, tier, rng)
+    # the lexer-level streams also in the release build (debug_assert!-only side effects, cfg(debug_assertions) code)
+    rel = s_chars(tier, rng) + s_nearmiss_chars(tier, rng) + s_keywords(tier, rng, mode='eval') + s_wf(tier, rng, nq=300, nt=3000)
+    rc, ro, rm = run_streams(rel, stats, profiles=('release',))
+    merge(res, std_judge('C03', rc, ro, rm))
     return res
 
 EXACT_LITS = {'f64': ['0', '1', '2', '3', '4', '5', '0.5', '1.5', '8', '0.25'], 'i64': ['0', '1', '2', '3', '4', '5', '7', '8'],
@@ -506,7 +542,18 @@ def run_C09(tier, rng, stats):
             cs.append(case('number', 'eval', p, '@' + op + '(-@)'))
         for e in ['-@', 'abs(@)', 'sgn(@)', 'floor(@)', 'ceil(@)', 'round(@)', 'trunc(@)', '@!', '⌊@⌋', '⌈@⌉', 'sqrt(@)', '@²', '2^@', '@^0.5', '@^-1', '@^-2']:
             cs.append(case('number', 'eval', p, e))
-    stats['rule'] = ('random mixed Integer/Float expressions over the boundary pools of both types, every arithmetic operator on all (placeholder, literal) pairs, '
+    # Integer op Integer near and beyond the i64 range with arbitrary low bits (the Float fallback works on the operands'
+    # doubles: double rounding is visible only when the low bits of the operands matter)
+    for _ in range(300 if tier == 'quick' else 3000):
+        k = rng.below(4)
+        hi = 62 if k else 63
+        a = (1 << (hi - 1 - rng.below(3))) + rng.below(1 << 40) * (1 + rng.below(3)) + rng.below(4096)
+        b = rng.choice([1025, 1026, 2047, 2049, 3073, 1 + rng.below(1 << 20), (1 << 61) + rng.below(1 << 44), (1 << 62) + rng.below(1 << 13), a ^ rng.below(1 << 12)])
+        a = min(a, 2**63 - 1); b = min(b, 2**63 - 1)
+        sa, sb = rng.choice([1, -1]), rng.choice([1, -1])
+        for op in ['+', '-', '*']:
+            cs.append(case('number', 'eval', 'I%d' % (sa * a), '@' + op + ('(-%d)' % b if sb < 0 else str(b))))
+    stats['rule'] = ('random mixed Integer/Float expressions over the boundary pools of both types, every arithmetic operator on all (placeholder, literal) pairs, Integer pairs near the i64 range with arbitrary low bits, '
                      'rounding functions on halves / negative fractions / 2^63 neighbours; variant and bits compared')
     cases, outs, model = run_streams(cs, stats, profiles=('debug', 'release'))
     res = std_judge('C09', cases, outs, model)
@@ -552,6 +599,12 @@ def match_known(pid, v, kf):
         if f.get('property') != pid:
             continue
         tags = v.get('tags') or {}
+        if 'stack' in f:
+            st = f['stack']
+            if v.get('kind') == 'stack-overflow' and tags.get('profile') in st['profiles'] and tags.get('stack_kib', 10**9) <= st['max_stack_kib'] \
+                    and tags.get('shape') in st['shapes'] and tags.get('ev') in st['ev']:
+                return f['what']
+            continue
         if 'fn' in f:
             if tags.get('fn') not in f['fn']:
                 continue
@@ -855,7 +908,7 @@ def run_C13(tier, rng, stats):
             pairs.append((case(ev, 'eval', None, 'q'), case(ev, 'eval', None, '1' + chr(zw) + '+1'), 'non-white-space look-alike is an error'))
     stats['rule'] = ('metamorphic pairs: 1-4 random White_Space characters inserted anywhere (and every one of the 25 characters at every position of a fixed expression), '
                      'alias swaps, floor/ceil brackets, mod/pow as operators, superscript run vs ^N in the stated follow contexts, prefix +, redundant brackets; well-formed and mutated inputs')
-    return run_pairs('C13', pairs, stats, profiles=('debug',))
+    return run_pairs('C13', pairs, stats, profiles=('debug', 'release'))
 
 def lit_of_ph(ev, ph):
     """a bracketed literal expression that evaluates exactly to the placeholder, or None"""
@@ -1822,6 +1875,16 @@ def run_C08(tier, rng, stats):
             c = case('complex', 'eval', cw(z), f + '(@)'); cs.append(c); meta[c] = ('c1' if f == 'abs' else 'model-only', f, (z,))
         for e in ['@/@', '@*1', '1/@', '@/3', 'abs(@)/abs(@)', 'abs(2*@)']:
             c = case('complex', 'eval', cw(z), e); cs.append(c); meta[c] = ('model-only', e, (z,))
+    # every operator and function over the placeholder pool (non-finite components, signed zeros) and small literals:
+    # compared with the model only (the component formulas propagate inf * 0 = NaN and the signs of zeros)
+    # (num_complex's functions, / and ^ branch on the sign bit of a NaN, which neither the wire format nor the one-NaN
+    # model carries: NaN placeholders are used with the field operations only)
+    for c in s_oppool(tier, rng, evs=['complex']):
+        e = dec_expr(c[3]).replace('@', '')
+        if '7ff8' in c[2] and (any(ch.isalpha() for ch in e.replace('i', '')) or '/' in e or '^' in e):
+            continue
+        if c not in meta:
+            cs.append(c); meta[c] = ('model-only', '', ())
     # lexing of i
     for e, want in [('i', 1j), ('2i', 2j), ('i*i', -1 + 0j), ('i²', None), ('1.5i+2', 2 + 1.5j), ('2ii', -2 + 0j), ('pi', complex(math.pi, 0)), ('.5i', 0.5j)]:
         c = case('complex', 'eval', None, e); cs.append(c); meta[c] = ('lit', e, (want,))
